@@ -222,9 +222,10 @@ def run(ck):
                 continue
             nlp += 1
             # the exemption covers the named function's do-while only, never the loops nested in it
-            is_do = any((f.blocks[b].term or {}).get("k") == "do" and len(f.blocks[b].succs) == 2 and f.blocks[b].succs[1] not in body for b in body)
-            if f.base in R7_EXEMPT and is_do:
-                ck.note("C03-R7: %s do-while exempt: %s" % (f.base, R7_EXEMPT[f.base]))
+            # (the directive loop: the one round the separator-skipping loop, whatever its spelling -- do-while, for(;;) with breaks)
+            is_outer = any(h2 != hdr and h2 in body and b2 < body for h2, b2 in cfg.natural_loops(f))
+            if f.base in R7_EXEMPT and is_outer:
+                ck.note("C03-R7: %s directive loop exempt: %s" % (f.base, R7_EXEMPT[f.base]))
                 continue
             stuck = []
 
@@ -321,6 +322,20 @@ def run(ck):
                 if ids:
                     stores.append((g, a, ids[-1]))
     ck.require(stores, "assignment of the parsed chunk size not found")
+    stores2 = []
+    for g, a, v in stores:
+        # the size may come out of a helper that was expanded into this function (`const auto sz = readChunkSize(cursor); size = *sz;`):
+        # the value that is stored is the local the helper returns
+        d0 = [x for x in g.events("decl") if x.get("var") == v]
+        if d0 and d0[0].get("icall") and d0[0].get("icall") not in ("strtol", "std::strtol", "strtoll", "std::strtoll"):
+            short_ = strip_tmpl(d0[0]["icall"]).rsplit("::", 1)[-1]
+            inner = [x for x in g.events("decl") if (x.get("var") or "").endswith("@" + short_) and (x.get("icall") or "") in ("strtol", "std::strtol", "strtoll", "std::strtoll")]
+            rets_ = {(r_.get("t") or "").strip() for r_ in g.events("iret")}
+            inner = [x for x in inner if x["var"].split("@")[0] in rets_]
+            if inner:
+                v = inner[0]["var"]
+        stores2.append((g, a, v))
+    stores = stores2
     for g, a, v in stores:
         # every way to the store has passed an edge on which `v < 0` is false (bail-out on negative), written either way round
         nonneg = [(b.id, k) for b in g.blocks.values() if b.term and len(b.succs) == 2 for k in (0, 1) if b.succs[k] is not None
@@ -340,7 +355,8 @@ def run(ck):
         for c in conv:
             m_ = _re.match(r"^&\s*(\w+)$", (c["args"][1].get("t") or "").strip())
             if m_:
-                endv = m_.group(1)
+                # (inside an expanded helper the local carries the helper's name as a suffix: take the resolved root)
+                endv = c["args"][1].get("root") or c["args"][1].get("v") or m_.group(1)
         if endv:
             moved = [(b.id, k) for b in g.blocks.values() if b.term and len(b.succs) == 2 for k in (0, 1) if b.succs[k] is not None
                      and lib.edge_establishes(b.term, k, endv, ("!=", ">"))]
